@@ -2,42 +2,8 @@
    [renderP e] = [render e] with parentheses around every middle operand of ?: that has a , < or ? outside
    brackets;  prep (render e) = renderP e. *)
 From Coq Require Import List NArith Bool Arith Lia.
-From CV Require Import Ast.Defs Ast.Basics Ast.Ctx.
+From CV Require Import Ast.Defs Ast.Frag Ast.Basics Ast.Ctx.
 Import ListNotations.
-
-(* does the rendering have a  ,  <  or  ?  outside brackets *)
-Fixpoint topn (e : expr) : bool :=
-  let sub := fun (m : nat) (x : expr) (r : bool) => if Nat.ltb (prec x) m then false else r in
-  match e with
-  | EId _ _ | ENum _ _ | EPar _ _ => false
-  | EPre _ _ a | ECast _ _ a => sub P_PRE a (topn a)
-  | EPost _ _ a | ECall0 _ a | EMem _ _ a _ => sub P_POST a (topn a)
-  | ECall _ a _ | EIdx _ a _ => sub P_POST a (topn a)
-  | EBin _ o a b => sub (bin_prec o) a (topn a) || match o with BLt => true | _ => false end
-                    || sub (S (bin_prec o)) b (topn b)
-  | EAsg _ _ a b => sub P_LOR a (topn a) || sub P_ASG b (topn b)
-  | ECond _ _ _ _ _ | EComma _ _ _ => true
-  end.
-
-Fixpoint renderP (e : expr) : list ptok :=
-  let sub := fun (m : nat) (x : expr) (r : list ptok) => wrap (Nat.ltb (prec x) m) (rootlab x) r in
-  match e with
-  | EId l n => [(l, TId n)]
-  | ENum l n => [(l, TNum n)]
-  | EPre l o a => (l, TOp (pre_opr o)) :: sub P_PRE a (renderP a)
-  | EPost l o a => sub P_POST a (renderP a) ++ [(l, TOp (post_opr o))]
-  | EBin l o a b => sub (bin_prec o) a (renderP a) ++ (l, TOp (bin_opr o)) :: sub (S (bin_prec o)) b (renderP b)
-  | EAsg l o a b => sub P_LOR a (renderP a) ++ (l, TOp (OAsg o)) :: sub P_ASG b (renderP b)
-  | ECond lq lc c a b =>
-      sub P_LOR c (renderP c) ++ (lq, TQ) :: wrap (topn a) lq (renderP a) ++ (lc, TColon) :: sub P_ASG b (renderP b)
-  | EComma l a b => sub P_COMMA a (renderP a) ++ (l, TComma) :: sub P_ASG b (renderP b)
-  | ECall0 l f => sub P_POST f (renderP f) ++ [(l, TLP); (l, TRP)]
-  | ECall l f a => sub P_POST f (renderP f) ++ (l, TLP) :: sub P_COMMA a (renderP a) ++ [(l, TRP)]
-  | EIdx l a i => sub P_POST a (renderP a) ++ (l, TLB) :: sub P_COMMA i (renderP i) ++ [(l, TRB)]
-  | EMem ld lm a m => sub P_POST a (renderP a) ++ [(ld, TDot); (lm, TId m)]
-  | EPar l a => (l, TLP) :: renderP a ++ [(l, TRP)]
-  | ECast l ty a => (l, TLP) :: (l, TType ty) :: (l, TRP) :: sub P_PRE a (renderP a)
-  end.
 
 (* number of inserted parenthesis pairs *)
 Fixpoint ins (e : expr) : nat :=
